@@ -1,6 +1,7 @@
 package main
 
 import (
+	"bytes"
 	"math"
 	"math/rand"
 	"sort"
@@ -553,6 +554,9 @@ func genC05(r *rand.Rand, t *Trace, thorough bool) {
 	for it := 0; it < n; it++ {
 		t.Emit(runHybridHistory(r, hybridOpts{nops: 10 + r.Intn(35)}, t))
 	}
+	for it := 0; it < 6+n/25; it++ {
+		runHybridHNSWDiff(r, t)
+	}
 }
 
 func genC06(r *rand.Rand, t *Trace, thorough bool) {
@@ -578,4 +582,117 @@ func genC06(r *rand.Rand, t *Trace, thorough bool) {
 	for it := 0; it < 2*nv; it++ {
 		t.Emit(runMetaHistory(r, 10+r.Intn(35), true, true, t), "c06.metadata")
 	}
+}
+
+// runHybridHNSWDiff: one history applied to a hybrid index over HNSW (exact regime: M=64, at most 100
+// vectors, ef 500) and to a hybrid index over a flat index; every search that leaves ef alone (or sets
+// it high) must answer identically. Searches with a tiny WithEfSearch are issued too, uncompared: an
+// option of one search must not leak into the index.
+func runHybridHNSWDiff(r *rand.Rand, t *Trace) {
+	dim := 2 + r.Intn(3)
+	mz := r.Intn(3)
+	mk := func(hnsw bool) comet.HybridSearchIndex {
+		var v comet.VectorIndex
+		if hnsw {
+			v, _ = comet.NewHNSWIndex(dim, metrics[mz], 64, 500, 500)
+		} else {
+			v, _ = comet.NewFlatIndex(dim, metrics[mz])
+		}
+		return comet.NewHybridSearchIndex(v, comet.NewBM25SearchIndex(), comet.NewRoaringMetadataIndex())
+	}
+	a, b := mk(true), mk(false)
+	style := r.Intn(2)
+	var live []uint32
+	next := uint32(2000001)
+	n, diffs := 0, 0
+	search := func(x comet.HybridSearchIndex, q []float32, txt string, ef int, withMeta bool) string {
+		s := x.NewSearch().WithK(1 << 20).WithVector(cloneVec(q))
+		if txt != "" {
+			s = s.WithText(txt)
+		}
+		if withMeta {
+			s = s.WithMetadata(comet.Exists("cat"))
+		}
+		if ef != 0 {
+			s = s.WithEfSearch(ef)
+		}
+		res, err := s.Execute()
+		return fingerprintHyb(res, err)
+	}
+	compare := func(x, y comet.HybridSearchIndex) (int, int) {
+		cn, cd := 0, 0
+		for i := 0; i < 6; i++ {
+			q := histVec(r, dim, style)
+			if mz == 2 {
+				q[0] += 3 // keep cosine queries away from the zero vector
+			}
+			txt := ""
+			if i%2 == 1 {
+				txt = bmText(r)
+			}
+			ef := []int{0, 0, 500, 1000}[r.Intn(4)]
+			if r.Intn(3) == 0 {
+				search(x, q, txt, 1+r.Intn(2), false) // a tiny ef for THIS search only
+			}
+			fa, fb := search(x, q, txt, ef, i%3 == 2), search(y, q, txt, ef, i%3 == 2)
+			cn++
+			if fa != fb {
+				cd++
+			}
+		}
+		return cn, cd
+	}
+	for step := 0; step < 25+r.Intn(25); step++ {
+		switch x := r.Intn(10); {
+		case x < 5 && len(live) < 100:
+			v := histVec(r, dim, style)
+			if mz == 2 {
+				v[0] += 3
+			}
+			txt := bmText(r)
+			md := metaDoc(r, false)
+			ea := a.AddWithID(next, cloneVec(v), txt, md)
+			eb := b.AddWithID(next, cloneVec(v), txt, md)
+			if (ea == nil) != (eb == nil) {
+				diffs++
+			}
+			if ea == nil {
+				live = append(live, next)
+			}
+			next++
+		case x < 7 && len(live) > 0:
+			j := r.Intn(len(live))
+			ea, eb := a.Remove(live[j]), b.Remove(live[j])
+			if (ea == nil) != (eb == nil) {
+				diffs++
+			}
+			live = append(live[:j], live[j+1:]...)
+		default:
+			cn, cd := compare(a, b)
+			n += cn
+			diffs += cd
+		}
+	}
+	// reload the HNSW hybrid into a fresh one with the same parameters and ask again
+	reload, rdiffs := 0, 0
+	var hb, vb, tb, mb bytes.Buffer
+	if err := a.WriteTo(&hb, &vb, &tb, &mb); err != nil {
+		reload = 1
+	} else {
+		fresh := mk(true)
+		var all bytes.Buffer
+		all.Write(hb.Bytes())
+		all.Write(vb.Bytes())
+		all.Write(tb.Bytes())
+		all.Write(mb.Bytes())
+		if _, err := fresh.ReadFrom(&all); err != nil {
+			reload = 2
+		} else {
+			b.Flush() // WriteTo flushed the source: the reference follows
+			cn, cd := compare(fresh, b)
+			n += cn
+			rdiffs = cd
+		}
+	}
+	t.Emit(NewCase(501).N(n).N(diffs).N(reload).N(rdiffs), "hybrid.over_hnsw_vs_flat")
 }
